@@ -677,14 +677,19 @@ impl Grid {
             let mut prev_pos = self.pos;
             self.pos.col = 0;
             let scrolled = self.row_inc_scroll(1);
-            prev_pos.row -= scrolled;
-            let new_pos = self.pos;
-            self.drawing_row_mut(prev_pos.row)
-                // we assume self.pos.row is always valid, and so prev_pos.row
-                // must be valid because it is always less than or equal to
-                // self.pos.row
-                .unwrap()
-                .wrap(wrap && prev_pos.row + 1 == new_pos.row);
+            // if the row we wrapped from was itself scrolled off of the
+            // screen (which can happen on a single-row screen), there is no
+            // row left to mark as wrapped
+            if let Some(prev_row) = prev_pos.row.checked_sub(scrolled) {
+                prev_pos.row = prev_row;
+                let new_pos = self.pos;
+                self.drawing_row_mut(prev_pos.row)
+                    // we assume self.pos.row is always valid, and so
+                    // prev_pos.row must be valid because it is always less
+                    // than or equal to self.pos.row
+                    .unwrap()
+                    .wrap(wrap && prev_pos.row + 1 == new_pos.row);
+            }
         }
     }
 
